@@ -739,6 +739,7 @@ func (lb *LoadBalancer) proxyRequest(backend *Backend, w http.ResponseWriter, r 
 	rw := &responseWriter{
 		ResponseWriter: w,
 		statusCode:     http.StatusOK, // Default status code
+		headerBefore:   w.Header().Clone(),
 	}
 
 	// Release the connection and record the outcome on every way out, including the
@@ -823,12 +824,44 @@ func (lb *LoadBalancer) handlePassiveHealthCheck(backend *Backend, statusCode in
 type responseWriter struct {
 	http.ResponseWriter
 	statusCode int
+	// headerBefore is the response header as it stood when the request was handed to the
+	// reverse proxy: what the layers in front of the balancer have set (request and trace
+	// IDs, headers set by plugins)
+	headerBefore http.Header
+	sawInterim   bool
 }
 
 // WriteHeader captures the status code
 func (rw *responseWriter) WriteHeader(statusCode int) {
+	if statusCode >= 100 && statusCode < 200 && statusCode != http.StatusSwitchingProtocols {
+		// An interim response (103 Early Hints): the final one is still to come
+		rw.sawInterim = true
+		rw.ResponseWriter.WriteHeader(statusCode)
+		return
+	}
+	if rw.sawInterim {
+		// The reverse proxy empties the header map after passing on an interim response,
+		// which also drops what was set before it ran: put that back in front of what the
+		// backend's final response brought
+		h := rw.Header()
+		for k, v := range rw.headerBefore {
+			if len(h[k]) < len(v) || !equalValues(h[k][:len(v)], v) {
+				h[k] = append(append([]string(nil), v...), h[k]...)
+			}
+		}
+		rw.sawInterim = false
+	}
 	rw.statusCode = statusCode
 	rw.ResponseWriter.WriteHeader(statusCode)
+}
+
+func equalValues(a, b []string) bool {
+	for i := range a {
+		if a[i] != b[i] {
+			return false
+		}
+	}
+	return true
 }
 
 // Flush implements the http.Flusher interface so that bytes a backend flushes before it
